@@ -159,9 +159,10 @@ func installHooks() {
 // ---------- scripts ----------
 
 type dirT struct {
-	K string `json:"k"` // submit shutdown start waitsd waitzero gate holdsub holddisp
+	K string `json:"k"` // submit shutdown start waitsd waitzero gate holdsub holddisp | waiters (waiters.go): qabove qbelow cabove cbelow
 	T int    `json:"t,omitempty"`
 	B bool   `json:"b,omitempty"`
+	N int    `json:"n,omitempty"` // threshold of a waiter directive
 }
 
 // how a pool is made: by workerpool.New or by Group.CreatePool, with the caller's option list IN ORDER (an option may be
@@ -196,6 +197,8 @@ type scriptCase struct {
 	Gated   []bool  `json:"gated"`
 	Script  []dirT  `json:"script"`
 	BusyAt  int     `json:"busy_at,omitempty"` // > 0: after this directive every worker must be executing a (gated) task
+	Waiters bool    `json:"waiters,omitempty"` // script of the waiters family (cases of kind CWait)
+	Exec    []int   `json:"exec,omitempty"`    // waiters family: per directive, how many tasks must be executing (parked at the gate) once settled; -1 = not judged
 }
 
 func resolve(via string, opts []optT) (w int, cancel, panicOpt bool) {
@@ -312,6 +315,8 @@ type obsT struct {
 	NCanc   int    `json:"ncanc"`
 	Rej     []int  `json:"rej"`
 	Done    []bool `json:"done"`
+	QSize   int    `json:"qsize"`
+	WDone   []bool `json:"wdone,omitempty"` // per waiter launched so far: has its call returned
 }
 
 type runner struct {
@@ -326,6 +331,8 @@ type runner struct {
 	done     []*atomic.Bool
 	inGate   atomic.Int64      // tasks currently executing and parked at the task gate
 	grp      *workerpool.Group // via == group
+	wspec    []dirT            // waiters launched so far
+	wdone    []*atomic.Bool
 }
 
 func (r *runner) submit(t int) {
@@ -368,7 +375,8 @@ func sorted(x []int) []int {
 	return y
 }
 
-func (r *runner) observe() obsT {
+// withQueue = false while the dispatcher is held at its yield point: it holds the mutex of the queue there
+func (r *runner) observe(withQueue bool) obsT {
 	r.mu.Lock()
 	defer r.mu.Unlock()
 	o := obsT{Running: r.wp.IsRunning(), Pending: r.wp.PendingTasksCounter.Get(), Ran: sorted(r.ran), Rej: sorted(r.rej),
@@ -376,6 +384,12 @@ func (r *runner) observe() obsT {
 	o.NCanc = int(r.dec.Load()) - len(r.ran)
 	for _, d := range r.done {
 		o.Done = append(o.Done, d.Load())
+	}
+	if withQueue {
+		o.QSize = r.wp.Queue.Size()
+	}
+	for _, d := range r.wdone {
+		o.WDone = append(o.WDone, d.Load())
 	}
 	return o
 }
@@ -424,6 +438,7 @@ func runScript(sc *scriptCase) scriptResult {
 		}
 	}
 	skipFirst := false
+	gateClosed, hs, hd := false, false, false // what the runner itself holds back
 	if sc.Via == "group" {
 		// Group.CreatePool returns the pool started: the script must begin with Start, which is the CreatePool call
 		if len(sc.Script) == 0 || sc.Script[0].K != "start" {
@@ -468,17 +483,26 @@ func runScript(sc *scriptCase) scriptResult {
 			launch(func() { r.wp.PendingTasksCounter.WaitIsZero() })
 		case "gate":
 			r.taskGate.set(d.B)
+			gateClosed = d.B
 		case "holdsub":
 			r.hooks.holdSub.set(d.B)
+			hs = d.B
 		case "holddisp":
 			r.hooks.holdDisp.set(d.B)
+			hd = d.B
 		default:
-			vx.Die("bad directive %q", d.K)
+			if !isWaiterDir(d.K) {
+				vx.Die("bad directive %q", d.K)
+			}
+			fl := &atomic.Bool{}
+			r.wspec, r.wdone = append(r.wspec, d), append(r.wdone, fl)
+			wp, wd := r.wp, d
+			go func() { waiterCall(wp, wd); fl.Store(true) }()
 		}
 		if !settle(settleTimeout) {
 			problem("directive %d (%s): process did not settle within %v", i, d.K, settleTimeout)
 		}
-		ob := r.observe()
+		ob := r.observe(!hd)
 		res.Obs = append(res.Obs, ob)
 		// never more tasks executing than workers; at the marked point of an all-busy script every worker executes one
 		if g := int(r.inGate.Load()); g > sc.Workers {
@@ -486,9 +510,27 @@ func runScript(sc *scriptCase) scriptResult {
 		} else if sc.BusyAt > 0 && i == sc.BusyAt && g != sc.Workers {
 			problem("directive %d: %d of %d workers execute a task although %d gated tasks were accepted", i, g, sc.Workers, ob.NAcc)
 		}
+		if i < len(sc.Exec) && sc.Exec[i] >= 0 && int(r.inGate.Load()) != sc.Exec[i] {
+			problem("directive %d (%s): %d task(s) execute, expected %d (workers %d, accepted %d, Queue.Size() = %d, pending = %d)",
+				i, d.K, r.inGate.Load(), sc.Exec[i], sc.Workers, ob.NAcc, ob.QSize, ob.Pending)
+		}
 		if r.grp != nil {
 			if gc := r.grp.PendingChildrenCounter.Get(); (gc != 0) != (ob.Pending != 0) || gc < 0 || gc > 1 {
 				problem("directive %d: group counter %d with pool counter %d", i, gc, ob.Pending)
+			}
+		}
+		// the process is quiescent and the runner holds nothing back (gate open, no hook held): every accepted task has
+		// finished - whatever else waits on the pool's queue or counter (C16_shutdown_terminates: a state without enabled
+		// steps has nothing in flight)
+		if !gateClosed && !hs && !hd && (ob.Pending != 0 || ob.QSize != 0) {
+			problem("directive %d (%s): quiescent with nothing held by the runner, but PendingTasksCounter = %d, Queue.Size() = %d, running = %v: an accepted task is not being run",
+				i, d.K, ob.Pending, ob.QSize, ob.Running)
+		}
+		// no waiter on the public queue / counter sleeps on a condition that holds in the quiescent state
+		for j, w := range r.wspec {
+			if !ob.WDone[j] && waiterCond(w, ob.QSize, ob.Pending) {
+				problem("directive %d (%s): waiter %d (%s) has not returned although its condition holds (Queue.Size() = %d, pending = %d)",
+					i, d.K, j, waiterName(w), ob.QSize, ob.Pending)
 			}
 		}
 	}
@@ -565,6 +607,9 @@ func dirCoq(d dirT) string {
 func natList(x []int) string { return vx.ListOf(x, func(v int) string { return fmt.Sprint(v) }) }
 
 func scriptCoq(sc *scriptCase, res scriptResult) string {
+	if sc.Waiters {
+		return waitScriptCoq(sc, res)
+	}
 	prog := vx.ListOf(sc.Prog, natList)
 	obs := vx.ListOf(res.Obs, func(o obsT) string {
 		return fmt.Sprintf("mkObs %s (%d)%%Z %s %d %d %s %s", vx.Bool(o.Running), o.Pending, natList(o.Ran), o.NAcc, o.NCanc, natList(o.Rej),
@@ -789,6 +834,8 @@ type freeCase struct {
 	Cycles     int    `json:"cycles"`
 	NoWait     bool   `json:"restart_without_wait"`
 	Noise      bool   `json:"hook_noise"`
+	Monitors   []dirT `json:"monitors,omitempty"` // external waiters on the pool's public Queue / PendingTasksCounter (waiters.go)
+	MonEarly   bool   `json:"monitors_before_start,omitempty"`
 }
 
 type freeResult struct {
@@ -865,7 +912,22 @@ func runFree(fc *freeCase) freeResult {
 			accepted[id].Store(1)
 		}
 	}
+	monitors := func() {
+		for _, m := range fc.Monitors {
+			go waiterCall(wp, m) // thresholds out of reach: stay parked on the pool's condition variables for the whole run
+		}
+		if len(fc.Monitors) > 0 {
+			settle(time.Second)
+		}
+	}
+	if fc.MonEarly {
+		monitors()
+	}
 	wp.Start()
+	if !fc.MonEarly {
+		settle(time.Second) // the dispatcher parks first
+		monitors()
+	}
 	var wg sync.WaitGroup
 	for g := 0; g < fc.Submitters; g++ {
 		r := rng.Fork()
@@ -897,6 +959,12 @@ func runFree(fc *freeCase) freeResult {
 	}()
 	if !within(freeBound, wg.Wait) {
 		problem("submitters / Shutdown-Start cycles did not finish within %v (hang)", freeBound)
+		return res
+	}
+	// every submitter has returned and the pool is running (the last call of a cycle is Start): all accepted tasks finish
+	if !within(freeBound, wp.PendingTasksCounter.WaitIsZero) {
+		problem("every submitter returned and the pool is running, but PendingTasksCounter = %d, Queue.Size() = %d after %v: an accepted task is not being run",
+			wp.PendingTasksCounter.Get(), wp.Queue.Size(), freeBound)
 		return res
 	}
 	wp.Shutdown()
@@ -974,6 +1042,10 @@ func main() {
 	// subcommand: `group` = group.go aggregation harness (group.go in this directory); anything else = pool harness
 	if len(os.Args) > 1 && os.Args[1] == "group" {
 		groupMain(os.Args[2:])
+		return
+	}
+	if len(os.Args) > 1 && os.Args[1] == "waiters" {
+		waitersMain(os.Args[2:])
 		return
 	}
 	args := flagArgs()
@@ -1055,6 +1127,13 @@ func main() {
 		if w, c, p := resolve(fc.Via, fc.Opts); w != fc.Workers || c != fc.Cancel || p != fc.Panic {
 			vx.Die("representOpts: %v does not resolve to (%d,%v,%v)", fc.Opts, fc.Workers, fc.Cancel, fc.Panic)
 		}
+		if or.Chance(1, 2) {
+			for k := 1 + or.Intn(2); k > 0; k-- {
+				fc.Monitors = append(fc.Monitors, dirT{K: vx.Pick(or, []string{"qabove", "qabove", "cabove"}), N: 1 << 20})
+			}
+			fc.MonEarly = or.Bool()
+		}
+		st.Count(fmt.Sprintf("free:monitors=%d", len(fc.Monitors)))
 		if failures >= 8 {
 			st.Count("free:skipped-after-failures")
 			continue
